@@ -17,12 +17,11 @@ let handler r =
       put_res (fun m -> put_fl (mvec fops m v)) (rotation_matrix fops alpha (z_of_int 3) axis)
   | "sph" -> let rr = num r in let th = num r in let ph = num r in put_fl (spherical fops rr th ph)
   | "spha" -> let rr = num r in let th = num r in let ph = num r in let axis = list r in
-      put_res put_fl (spherical_axis fops rr th ph axis)
+      put_res put_fl (spherical_axis fops Float.hypot rr th ph axis)
   | "sphad" -> let rr = num r in let th = num r in let ph = num r in let h = num r in let axis = vec3 r in
-      (match spherical_axis fops rr th ph axis, spherical_axis fops rr th (ph +. h) axis with
+      (match spherical_axis fops Float.hypot rr th ph axis, spherical_axis fops Float.hypot rr th (ph +. h) axis with
        | Ok v, Ok w -> put_fl v; put_fl w
        | _ -> put_w "EXIT")
-  | "angle" -> let a = list r in let b = list r in put_res put_f (angle fops a b)
   | "cross" -> let a = list r in let b = list r in put_res put_fl (cross fops a b)
   | o -> put_w ("MODELERR unknown_op_" ^ o)
 
